@@ -61,7 +61,8 @@ inductive MapEnd (r' : Req) (hand : Nat) : Prop
 /-- **element-wise, in order, lazy.** Running the loop over the remaining elements `items`: the elements are pulled
 from the front, one at a time; every pulled element was turned into a task, skipped (its call raised), or is the
 single element in hand while the loop waits (for its own concurrency slot or for pool room) — never more than one
-beyond; and nothing is pulled twice or skipped over: `pulled` grows by exactly what disappeared from `items`. -/
+beyond (an iterator that raises instead of yielding counts as the element in hand: the consumer ends with that
+exception); and nothing is pulled twice or skipped over: `pulled` grows by exactly what disappeared from `items`. -/
 theorem C05_loop_accounting_partial (m : Nat) (items : List Item) (p : Pool) (r : Req) (h : p.reqs[m]? = some r)
     (ho : r.outcome = none) (hh : r.hooks.pull = []) :
     ∃ (r' : Req) (hand : Nat), (mapLoop m items p).reqs[m]? = some r' ∧
@@ -81,6 +82,12 @@ theorem C05_loop_accounting_partial (m : Nat) (items : List Item) (p : Pool) (r 
     unfold mapLoop
     simp only
     obtain ⟨hp, _, _⟩ := pullItem_req p m rest r h hh
+    split
+    · -- the argument iterator raises instead of yielding: the consumer ends with that exception
+      obtain ⟨a, _⟩ := finishMeta_req _ m (.exc (.user 4)) _ hp
+      exact ⟨_, 1, a, by simp [Req.finished]; omega, ⟨1, by simp [Req.finished], by simp [Req.finished], by simp⟩,
+        by simp [Req.finished], MapEnd.failed (.user 4) (by simp [Req.finished]) rfl,
+        by simp [Req.finished]; exact hh⟩
     split
     · -- the element's call raises: skipped, next element
       have h2 : ((p.pullItem m rest).modReq m fun x => { x with skipped := x.skipped + 1 }).reqs[m]? =
@@ -267,7 +274,7 @@ theorem C05_nc_is_given (stars : Nat) (g : String) (sp : SpawnSpec) (items : Lis
 /-! Non-vacuity of the bound: `map` over 4 gated elements with `num_concurrent = 2` on an unbounded pool, after the
 spawner and both tasks have taken their first steps: exactly two workers of the call are live. -/
 def C05_demo : History :=
-  [.mkpool none none none, .on 0 [] (.map 0 [⟨false⟩, ⟨false⟩, ⟨false⟩, ⟨false⟩] 2 none gatedSpec),
+  [.mkpool none none none, .on 0 [] (.map 0 [{ bad := false }, { bad := false }, { bad := false }, { bad := false }] 2 none gatedSpec),
    .run 0 [], .run 0 [], .run 0 []]
 
 example : (((World.init 0).run C05_demo).pools.map fun p => (p.mapLive 0, p.mapActive 0, p.reqs.map (·.nc))) = [(2, 2, [2])] := by
@@ -289,8 +296,8 @@ example : (((World.init 0).run C05_demo).pools.map fun p => p.reqs.map fun r =>
 
 /-! Non-vacuity: `map` over 4 elements with `num_concurrent = 2` on an unbounded pool: two tasks, the third
 element is in hand, the fourth has not been touched. -/
-example : ((mapLoop 0 [⟨false⟩, ⟨false⟩, ⟨false⟩, ⟨false⟩]
-      ((Pool.init .inf none).doMap 0 [⟨false⟩, ⟨false⟩, ⟨false⟩, ⟨false⟩] 2 none gatedSpec).1).reqs.map fun r =>
+example : ((mapLoop 0 [{ bad := false }, { bad := false }, { bad := false }, { bad := false }]
+      ((Pool.init .inf none).doMap 0 [{ bad := false }, { bad := false }, { bad := false }, { bad := false }] 2 none gatedSpec).1).reqs.map fun r =>
     (r.created, r.pulled, r.items.length, r.frame)) = [(2, 3, 1, MFrame.waitMapSem)] := by decide +kernel
 
 end Taskpool
